@@ -388,6 +388,9 @@ func runC04(w *World, r *Report) {
 			_, e2 := fmt.Sscan(row[1], &wd)
 			constPos := e1 == nil && e2 == nil
 			switch {
+			case strings.HasPrefix(row[2], "Σ("):
+				wild[row[0]] = true // a total the encoder computes: the decoder may store or skip it
+				continue
 			case strings.Contains(row[2], "[*]") || row[2] == "zero":
 				continue // lists (retain rule), padding
 			case row[2] == "packed" || !strings.Contains(row[2], "$"):
